@@ -332,6 +332,9 @@ impl View {
         let loca = font.loca(None).map_err(|_| "no loca")?;
         let maxp = font.maxp().map_err(|_| "no maxp")?;
         font.head().map_err(|_| "no head")?;
+        // cmap is a required table and klippa::Plan::new documents that it
+        // expects one (`expect("Error reading cmap table")`): out of domain
+        font.cmap().map_err(|_| "no cmap")?;
         let n_glyphs = maxp.num_glyphs() as u32;
         let n_all = (loca.len() as u32).max(n_glyphs);
         let charmap = font.charmap();
@@ -441,22 +444,46 @@ impl Req {
         d.finish()
     }
     fn json(&self) -> Value {
-        let cap = |v: &Vec<u32>| -> Value {
-            if v.len() <= 64 {
-                json!(v)
-            } else {
-                json!({"len": v.len(), "first": &v[..32], "last": &v[v.len()-8..], "fnv": format!("{:016x}", {
-                    let mut d = Digest::new();
-                    for x in v { d.u32(*x); }
-                    d.finish()
-                })})
-            }
-        };
-        json!({"chars": cap(&self.chars), "gids": cap(&self.gids), "flags": self.flags, "flag_names": flag_names(self.flags), "shape": self.shape})
+        json!({"chars": ranges(&self.chars), "n_chars": self.chars.len(), "gids": ranges(&self.gids), "n_gids": self.gids.len(), "flags": self.flags, "flag_names": flag_names(self.flags), "shape": self.shape})
     }
     fn retain(&self) -> bool {
         self.flags & F_RETAIN_GIDS != 0
     }
+}
+
+/// "3,7-12,40" (decimal, sorted input)
+fn ranges(v: &[u32]) -> String {
+    let mut out = String::new();
+    let mut i = 0;
+    while i < v.len() {
+        let mut j = i;
+        while j + 1 < v.len() && v[j + 1] == v[j] + 1 {
+            j += 1;
+        }
+        if !out.is_empty() {
+            out.push(',');
+        }
+        if j > i {
+            out.push_str(&format!("{}-{}", v[i], v[j]));
+        } else {
+            out.push_str(&format!("{}", v[i]));
+        }
+        i = j + 1;
+    }
+    out
+}
+
+fn parse_ranges(s: &str) -> Option<Vec<u32>> {
+    let mut v = vec![];
+    for p in s.split(',').filter(|p| !p.is_empty()) {
+        if let Some((a, b)) = p.split_once('-') {
+            let (a, b): (u32, u32) = (a.parse().ok()?, b.parse().ok()?);
+            v.extend(a..=b);
+        } else {
+            v.push(p.parse().ok()?);
+        }
+    }
+    Some(v)
 }
 
 fn make_plan(font: &FontRef, req: &Req) -> Plan {
@@ -702,7 +729,6 @@ impl CaseCtx<'_> {
             "path": self.view.path,
             "kind": self.kind.s(),
             "request": self.req.json(),
-            "replay_request": {"chars": self.root_req.unwrap_or(self.req).chars.len(), "note": "full request is regenerated from seed/tier/shard; see 'request'"},
         });
         if let Some(r) = self.root_req {
             d["root_request"] = r.json();
@@ -726,11 +752,33 @@ impl CaseCtx<'_> {
     }
 }
 
-/// fonts whose `Err` from subset_font is legitimate, with the table it is
-/// reported for and why (decided by reading klippa and the font).
-fn legitimate_error(view: &View, err: &str) -> Option<&'static str> {
-    let _ = (view, err);
-    None
+/// Is this `Err` from subset_font legitimate? Decided from klippa's code:
+/// `try_subset` (klippa/src/lib.rs) gives up when a table would need more
+/// than 256 × the source table's size (same limit as hb-subset). For cmap
+/// that is reachable with a well-formed font: a tiny source cmap (a few big
+/// format-12 groups) and a scattered request needing one 12-byte group per
+/// character run.
+fn legitimate_error(view: &View, font: &FontRef, req: &Req, err: &str) -> Option<String> {
+    if !err.contains("'cmap'") {
+        return None;
+    }
+    let src_len = font.data_for_tag(Tag::new(b"cmap")).map(|d| d.len()).unwrap_or(0);
+    let ex = expectations(view, font, req);
+    // lower bound of the number of format-12 groups: runs of consecutive code points
+    let mut groups = 0usize;
+    let mut prev: Option<u32> = None;
+    for (c, _) in &ex.chars {
+        if prev.map(|p| p + 1 != *c).unwrap_or(true) {
+            groups += 1;
+        }
+        prev = Some(*c);
+    }
+    let need = 16 + 12 * groups;
+    if need > src_len * 256 {
+        Some(format!("format-12 subtable alone needs {} bytes > 256 x source cmap ({} bytes): klippa/src/lib.rs try_subset size limit", need, src_len))
+    } else {
+        None
+    }
 }
 
 /// Returns the subset bytes and old→new relation if the case could be fully
@@ -746,20 +794,17 @@ fn check_case(ctx: &mut Ctx, cc: &CaseCtx) -> Option<(Vec<u8>, HashMap<u32, u32>
         SubOut::Err(e) => {
             ctx.count(&format!("subset_error:{}", e), 1);
             ctx.label("subset_error_fonts", &format!("{} [{}]", view.name, e));
-            if let Some(why) = legitimate_error(view, &e) {
+            let legit = open_font(&view.data, view.index).and_then(|f| legitimate_error(view, &f, req, &e));
+            if let Some(why) = legit {
+                ctx.count("subset_error_legitimate", 1);
                 ctx.label("subset_error_legitimate", &format!("{}: {} ({})", view.name, e, why));
                 return None;
             }
             let is_cmap = e.contains("'cmap'");
-            let not_retained = view.chosen_cmap.map(|(p, en, f)| !klippa_retains(p, en) || (f == 12 && !matches!((p, en), (0, 4) | (3, 10)))).unwrap_or(false);
-            if is_cmap && not_retained {
-                let sig = format!("subset-error:cmap:no-retained-cmap-subtable:{}", view.name);
-                ctx.violation(&sig, cc.detail(json!({"error": e, "original_charmap_subtable(platform,encoding,format)": view.chosen_cmap.map(|c| json!([c.0, c.1, c.2])), "mapped_chars_in_original": view.mappings.len()})), None);
-            } else {
-                let tag = e.split('\'').nth(1).unwrap_or("?").to_string();
-                let sig = format!("subset-error:{}:{}:{}", tag.trim(), cc.kind.s(), view.name);
-                ctx.violation(&sig, cc.detail(json!({"error": e})), None);
-            }
+            let _ = is_cmap;
+            let tag = e.split('\'').nth(1).unwrap_or("?").to_string();
+            let sig = format!("subset-error:{}:{}:{}", tag.trim(), cc.kind.s(), view.name);
+            ctx.violation(&sig, cc.detail(json!({"error": e})), None);
             return None;
         }
     };
@@ -784,6 +829,22 @@ fn check_case(ctx: &mut Ctx, cc: &CaseCtx) -> Option<(Vec<u8>, HashMap<u32, u32>
     if sub.head().is_err() || sub.glyf().is_err() || sub.loca(None).is_err() {
         ctx.violation(&cc.sig("reopen-tables"), cc.detail(json!({"head": sub.head().is_ok(), "glyf": sub.glyf().is_ok(), "loca": sub.loca(None).is_ok()})), None);
         return None;
+    }
+
+    // (1b) loca must not point past the end of glyf
+    let mut glyf_corrupt = false;
+    if let (Ok(l), Ok(g), Ok(h)) = (sub.loca(None), sub.glyf(), sub.head()) {
+        let glyf_len = g.offset_data().len() as u32;
+        let last = l.get_raw(l.len()).unwrap_or(0);
+        let long = h.index_to_loc_format() != 0;
+        if last > glyf_len || !l.all_offsets_are_ascending() {
+            glyf_corrupt = true;
+            ctx.violation(
+                &format!("loca-past-glyf-end:{}:{}", if long { "long" } else { "short" }, view.name),
+                cc.detail(json!({"loca_format": if long { "long" } else { "short" }, "last_loca_offset": last, "glyf_length": glyf_len, "excess": last as i64 - glyf_len as i64, "ascending": l.all_offsets_are_ascending(), "subset_num_glyphs": n_sub})),
+                None,
+            );
+        }
     }
 
     // (2) glyph set and the renumbering relation
@@ -837,6 +898,16 @@ fn check_case(ctx: &mut Ctx, cc: &CaseCtx) -> Option<(Vec<u8>, HashMap<u32, u32>
     let oobs = Observer::new(&orig, settings);
     let sobs = Observer::new(&sub, settings);
     let notdef_kept = req.flags & F_NOTDEF_OUTLINE != 0;
+    let hvar_dropped = view.has_hvar && sub.hvar().is_err();
+    // glyphs whose component closure contains .notdef
+    let uses_notdef = |g: u32| -> bool {
+        if g == 0 || view.comps[g as usize].is_empty() {
+            return false;
+        }
+        let mut one = BTreeSet::new();
+        one.insert(g);
+        composite_closure(view, &one).contains(&0)
+    };
     let mut compared = 0u64;
     let mut bad_glyphs = 0;
     let mut kept_nonempty = 0u64;
@@ -861,6 +932,8 @@ fn check_case(ctx: &mut Ctx, cc: &CaseCtx) -> Option<(Vec<u8>, HashMap<u32, u32>
             } else {
                 if x.ostat == 1 {
                     ctx.count("orig_draw_error_skipped", 1);
+                } else if glyf_corrupt {
+                    // already reported: every outline after the first odd-sized glyph is garbage
                 } else if x.ostat != y.ostat || x.outline != y.outline || x.ncmd != y.ncmd {
                     diff = Some("outline");
                 }
@@ -880,13 +953,22 @@ fn check_case(ctx: &mut Ctx, cc: &CaseCtx) -> Option<(Vec<u8>, HashMap<u32, u32>
                 bad_glyphs += 1;
                 if bad_glyphs <= 3 {
                     let who = if g == 0 { "notdef" } else { "glyph" };
+                    let sig = if what == "outline" && !notdef_kept && uses_notdef(g) {
+                        // .notdef is emptied (no NOTDEF_OUTLINE) although a kept composite uses it as a component
+                        format!("glyph-differs:composite-of-emptied-notdef:{}", view.name)
+                    } else if what != "outline" && hvar_dropped && !st.is_default_loc {
+                        // HVAR was dropped from the subset: skrifa falls back to gvar phantom deltas
+                        format!("metrics-differ:hvar-dropped:{}", view.name)
+                    } else {
+                        cc.sig(&format!("glyph-differs:{}:{}", what, who))
+                    };
                     ctx.violation(
-                        &cc.sig(&format!("glyph-differs:{}:{}", what, who)),
+                        &sig,
                         cc.detail(json!({
                             "old_gid": g, "new_gid": ng, "setting": st.label,
                             "original": {"draw_status": x.ostat, "commands": x.ncmd, "outline_digest": format!("{:016x}", x.outline), "advance": x.adv.map(f32::from_bits), "lsb": x.lsb.map(f32::from_bits)},
                             "subset": {"draw_status": y.ostat, "commands": y.ncmd, "outline_digest": format!("{:016x}", y.outline), "advance": y.adv.map(f32::from_bits), "lsb": y.lsb.map(f32::from_bits)},
-                            "subset_num_glyphs": n_sub,
+                            "subset_num_glyphs": n_sub, "subset_has_HVAR": sub.hvar().is_ok(), "original_has_HVAR": view.has_hvar,
                         })),
                         None,
                     );
@@ -899,7 +981,7 @@ fn check_case(ctx: &mut Ctx, cc: &CaseCtx) -> Option<(Vec<u8>, HashMap<u32, u32>
     ctx.count("kept_glyphs_compared", ex.r_full.len() as u64);
 
     // (3b) components of kept composites are the renumbered components
-    if let (Ok(sl), Ok(sg)) = (sub.loca(None), sub.glyf()) {
+    if let (false, Ok(sl), Ok(sg)) = (glyf_corrupt, sub.loca(None), sub.glyf()) {
         let mut bad = 0;
         for &g in ex.r_full.iter() {
             let oc = &view.comps[g as usize];
@@ -935,8 +1017,9 @@ fn check_case(ctx: &mut Ctx, cc: &CaseCtx) -> Option<(Vec<u8>, HashMap<u32, u32>
         let what = if got.is_none() { "cmap-unmapped" } else { "cmap-wrong-glyph" };
         let sig = if any_format4_later_rangeoffset(&sub, c) {
             format!("cmap-wrong-glyph:format4-multi-rangeoffset:{}", view.name)
-        } else if view.chosen_cmap.map(|(p, e, _)| !klippa_retains(p, e)).unwrap_or(false) {
-            format!("{}:no-retained-cmap-subtable:{}", what, view.name)
+        } else if !scm.has_map() {
+            // the subset has no cmap subtable skrifa can use at all
+            format!("cmap-unmapped:no-retained-cmap-subtable:{}", view.name)
         } else {
             cc.sig(what)
         };
@@ -1044,10 +1127,13 @@ fn check_case(ctx: &mut Ctx, cc: &CaseCtx) -> Option<(Vec<u8>, HashMap<u32, u32>
         &format!("{}:{}", cc.kind.s(), req.shape),
         json!({"font": view.name, "request": req.json(), "subset_len": out.len(), "subset_num_glyphs": n_sub, "kept": ex.r_full.len(), "required": ex.r_min.len(), "chars_kept": ex.chars.len()}),
     );
-    if bad_glyphs == 0 && bad_chars == 0 {
+    if bad_glyphs == 0 && bad_chars == 0 && !glyf_corrupt {
         ctx.count("cases_all_observations_equal", 1);
+        Some((out, rel))
+    } else {
+        // the subset is already refuted: its idempotence is not examined
+        None
     }
-    Some((out, rel))
 }
 
 /// idempotence: subset the subset with the same request (glyph ids taken
@@ -1057,7 +1143,13 @@ fn check_idempotence(ctx: &mut Ctx, view: &View, req: &Req, out: Vec<u8>, rel: &
     let v1 = match View::build(&view.name, &view.path, Arc::new(out), None, Some(view.settings.clone()), seed) {
         Ok(v) => v,
         Err(e) => {
-            ctx.inconclusive(format!("idempotence: cannot build view of subset of {}: {}", view.name, e));
+            if e == "no cmap" {
+                // nothing was mapped: klippa drops the empty cmap, and a font
+                // without cmap is outside Plan::new's domain
+                ctx.count("idem_skipped_subset_has_no_cmap", 1);
+            } else {
+                ctx.inconclusive(format!("idempotence: cannot build view of subset of {}: {}", view.name, e));
+            }
             return;
         }
     };
@@ -1083,19 +1175,6 @@ fn check_idempotence(ctx: &mut Ctx, view: &View, req: &Req, out: Vec<u8>, rel: &
                 ctx.count("idem_glyph_count_changed", 1);
             } else {
                 ctx.count("idem_glyph_count_same", 1);
-            }
-            // the complete charmap must be unchanged
-            let m2: Vec<(u32, u32)> = {
-                let mut v: Vec<(u32, u32)> = s2.charmap().mappings().map(|(c, g)| (c, g.to_u32())).collect();
-                v.sort_unstable();
-                v
-            };
-            if n2 == v1.n_glyphs && m2 != v1.mappings {
-                ctx.violation(
-                    &cc.sig("idem-charmap-changed"),
-                    cc.detail(json!({"first_subset_mappings": v1.mappings.len(), "second_subset_mappings": m2.len()})),
-                    None,
-                );
             }
         }
     }
@@ -1416,10 +1495,8 @@ fn replay(ctx: &mut Ctx, _args: &Args, rec: &Value, _bytes: Option<&[u8]>) {
     let d = if rec["detail"]["case"].is_object() { &rec["detail"]["case"] } else { &rec["detail"] };
     let path = d["path"].as_str().unwrap_or("");
     let r = if d["root_request"].is_object() { &d["root_request"] } else { &d["request"] };
-    let arr = |v: &Value| -> Option<Vec<u32>> { v.as_array().map(|a| a.iter().filter_map(|x| x.as_u64().map(|x| x as u32)).collect()) };
-    let (Some(chars), Some(gids)) = (arr(&r["chars"]), arr(&r["gids"])) else {
-        eprintln!("vf-c17: the recorded request is abbreviated; re-run the workload with the recorded seed/tier/shard instead");
-        ctx.inconclusive("replay: abbreviated request");
+    let (Some(chars), Some(gids)) = (r["chars"].as_str().and_then(parse_ranges), r["gids"].as_str().and_then(parse_ranges)) else {
+        ctx.inconclusive("replay: request not parsable");
         return;
     };
     let Ok(data) = std::fs::read(path) else {
